@@ -68,6 +68,8 @@ Global Arguments N.add : simpl never.
 Global Arguments N.sub : simpl never.
 Global Arguments N.pow : simpl never.
 Global Arguments N.lxor : simpl never.
+Global Arguments Nat.div : simpl never.
+Global Arguments Nat.modulo : simpl never.
 Global Arguments Nat.leb : simpl never.
 Global Arguments Nat.ltb : simpl never.
 Global Arguments Nat.eqb : simpl never.
